@@ -451,3 +451,5 @@ def run(ctx):
             ctx.check(qual + ' asserts the block size', ctx.spec_expr(sz, {'X': A(1), 'self': SELF}) in asserts,
                       'no assert that the input is exactly one block', ctx.where(rel, qual))
     ctx.guard('block lengths', lengths)
+
+    dependencies(ctx, ['crysp/aes.py', 'crysp/chacha.py', 'crysp/des.py', 'crysp/salsa20.py', 'crysp/serpent.py', 'crysp/threefish.py', 'crysp/utils/operators.py'], 'C03')
